@@ -348,6 +348,19 @@ func checkC12(R *Run) {
 				continue
 			}
 			f, _ := constString(c.Args[0])
+			// … or one Sprintf whose format was selected beforehand (a phi of the two constants): what must only be
+			// reachable under the option is then the block the emote constant comes from
+			var emotePreds []*ssa.BasicBlock
+			var emoteEdges []Edge
+			if phi, isPhi := stripConv(c.Args[0]).(*ssa.Phi); isPhi && f == "" {
+				for i, e := range phi.Edges {
+					if s, ok := constString(stripConv(e)); ok && strings.Contains(s, "***") {
+						f = s
+						emotePreds = append(emotePreds, phi.Block().Preds[i])
+						emoteEdges = append(emoteEdges, Edge{phi.Block().Preds[i], phi.Block()})
+					}
+				}
+			}
 			if !strings.Contains(f, "***") {
 				continue
 			}
@@ -367,7 +380,17 @@ func checkC12(R *Run) {
 					}
 				}
 			})
-			R.check(nOpt > 0 && !reachable(fn, cut)[ci.Block()], "chat-truncate", fname(fn)+": emote form", P.ipos(ci), "only under chat options == {0,1}", "the emote form is used without the request's chat options being {0,1}")
+			emoteReach := reachable(fn, cut)[ci.Block()]
+			if emotePreds != nil {
+				emoteReach = false
+				rc := reachable(fn, cut)
+				for i, pb := range emotePreds {
+					if rc[pb] && !cut[emoteEdges[i]] {
+						emoteReach = true
+					}
+				}
+			}
+			R.check(nOpt > 0 && !emoteReach, "chat-truncate", fname(fn)+": emote form", P.ipos(ci), "only under chat options == {0,1}", "the emote form is used without the request's chat options being {0,1}")
 		}
 	}
 
@@ -380,7 +403,26 @@ func checkC12(R *Run) {
 				continue
 			}
 			f, _ := constString(c.Args[0])
-			if _, isWanted := want[f]; !isWanted {
+			var fs []string
+			if phi, isPhi := stripConv(c.Args[0]).(*ssa.Phi); isPhi && f == "" {
+				for _, e := range phi.Edges {
+					if s, ok := constString(stripConv(e)); ok {
+						fs = append(fs, s)
+					} else {
+						fs = nil
+						break
+					}
+				}
+			} else {
+				fs = []string{f}
+			}
+			wanted := len(fs) > 0
+			for _, x := range fs {
+				if _, isWanted := want[x]; !isWanted {
+					wanted = false
+				}
+			}
+			if !wanted {
 				continue
 			}
 			args := callArgsFlat(c)[1:]
@@ -395,7 +437,9 @@ func checkC12(R *Run) {
 				}
 			}
 			if okArgs {
-				want[f] = true
+				for _, x := range fs {
+					want[x] = true
+				}
 			}
 		}
 		R.check(want["\r%13.13s:  %s"] && want["\r*** %s %s"], "chat-truncate", fname(fn)+": line format", P.pos(fn.Pos()), "\\r%13.13s:  %s and \\r*** %s %s with (sender's name, request text)", fmt.Sprintf("the chat line is not built with the protocol's two formats from (sender's UserName, request's text): %v", want))
